@@ -294,6 +294,42 @@ int main(int argc, char **argv)
   }
 
   Result total;
+  // ---- default names: every prefix of {define an unnamed variable, delete the variable at position p} of length <= 4.  After
+  // any such history defining one more unnamed variable must succeed, as it would had the deleted ones never existed. ----
+  {
+    std::string uconf = "colvar {\n distance {\n group1 { atomNumbers 1 }\n group2 { atomNumbers 2 }\n }\n}\n";
+    // letters: 0 = define unnamed; 1..3 = delete the variable currently at position letter-1 (if there is one)
+    for (int len = 1; len <= 4; len++) {
+      long nw = 1; for (int i = 0; i < len; i++) nw *= 4;
+      for (long w = 0; w < nw; w++) {
+        vproxy *px = new vproxy(6, true);
+        place(*px, 0);
+        std::string hist = "[";
+        bool applicable = true, refused = false;
+        long q = w;
+        for (int i = 0; i < len && applicable && !refused; i++) {
+          int l = (int) (q % 4); q /= 4;
+          if (l == 0) { hist += "\"define an unnamed variable\","; if (px->config(uconf) != 0) refused = true; }
+          else {
+            if ((size_t) l > px->colvars->variables()->size()) { applicable = false; break; }
+            hist += "\"delete the variable at position " + std::to_string(l) + "\",";
+            delete (*(px->colvars->variables()))[l - 1];
+            cvm::clear_error();
+          }
+        }
+        if (applicable) {
+          total.count("evaluations");
+          size_t n0 = px->colvars->variables()->size();
+          int rc = refused ? 1 : px->config(uconf);
+          total.seen("nontrivial", fnv("unnamed" + hist));
+          if (rc != 0 || px->colvars->variables()->size() != n0 + 1)
+            total.violation("C13:defining-an-unnamed-variable-fails-after-earlier-deletions",
+                            "{\"history\":" + hist + "\"define an unnamed variable\"],\"error\":\"" + jesc(px->errtxt.substr(0, 200)) + "\"}");
+        }
+        delete px;
+      }
+    }
+  }
   bool ok = run_sharded(args.jobs, [&](int shard, int nsh, Result &r) {
     size_t const BATCH = 100;
     for (size_t b0 = shard * BATCH; b0 < all.size(); b0 += nsh * BATCH) {
